@@ -16,6 +16,7 @@ import (
 )
 
 func (m *Model) RunSlotIndex(s *Sink, rule string) {
+	defer m.runDuplicateSlotCases(s, rule)
 	stmtT := m.namedType("ast", "Statement")
 	slotT, htmlT, litT := m.namedType("ast", "SlotStmt"), m.namedType("ast", "HTMLStmt"), m.namedType("ast", "StringLiteral")
 	if stmtT == nil || slotT == nil || htmlT == nil || litT == nil {
@@ -89,6 +90,101 @@ func (m *Model) RunSlotIndex(s *Sink, rule string) {
 			s.Violation(rule, key, m.Pos(fn.Pos()), "%s: %s — the body passed for that slot is refused as \"not defined in the component\" or goes to another placeholder", fnKey(fn), bad)
 		default:
 			s.OK(rule, key, m.Pos(fn.Pos()), "case evaluation on a list of four statements and on empty lists: named and default placeholders are found at their positions (the first one included), other names are not found")
+		}
+	}
+}
+
+// runDuplicateSlotCases: "a slot passed twice is reported": the function of package ast that takes the slots of a use
+// and yields a name and a count is evaluated on lists with a repeated name — adjacent, with another slot in between,
+// the default slot, three times — and on lists without one.
+func (m *Model) runDuplicateSlotCases(s *Sink, rule string) {
+	slotT, litT := m.namedType("ast", "SlotStmt"), m.namedType("ast", "StringLiteral")
+	if slotT == nil || litT == nil {
+		return
+	}
+	fieldIdx := func(t *types.Named, name string) int {
+		st := t.Underlying().(*types.Struct)
+		for i := 0; i < st.NumFields(); i++ {
+			if canonFieldName(t, i, st.Field(i).Name()) == name {
+				return i
+			}
+		}
+		return -1
+	}
+	fName, fVal := fieldIdx(slotT, "Name"), fieldIdx(litT, "Value")
+	if fName < 0 || fVal < 0 {
+		return
+	}
+	var finders []*ssa.Function
+	for _, fn := range m.ModFns {
+		if fn.Blocks == nil || shortPkg(fnPkgPath(fn)) != "ast" || fn.Signature.Recv() != nil || len(fn.Params) != 1 || fn.Signature.Results().Len() != 2 {
+			continue
+		}
+		sl, isSl := fn.Params[0].Type().Underlying().(*types.Slice)
+		if !isSl {
+			continue
+		}
+		if pn := ptrNamed(sl.Elem()); pn == nil || pn != slotT {
+			continue
+		}
+		r := fn.Signature.Results()
+		if isStringT(r.At(0).Type()) && isInteger(r.At(1).Type()) {
+			finders = append(finders, fn)
+		}
+	}
+	if len(finders) == 0 {
+		s.Undecided(rule, "duplicate slots", "-", "no function of package ast takes the slots of a use and yields a name and a count (findDuplicateSlot was the confirmed instance)")
+		return
+	}
+	type tc struct {
+		names []string
+		dup   string
+		times int64 // 0: no duplicate
+	}
+	cases := []tc{{[]string{"a", "a"}, "a", 2}, {[]string{"a", "b", "a"}, "a", 2}, {[]string{"a", "a", "b"}, "a", 2}, {[]string{"x", "b", "b", "b"}, "b", 3},
+		{[]string{"", "x", ""}, "", 2}, {[]string{"a", "b"}, "", 0}, {[]string{"a"}, "", 0}, {nil, "", 0}, {[]string{"a", "b", "c", "b"}, "b", 2}}
+	for _, fn := range finders {
+		key := fnKey(fn) + "|a slot passed twice is found wherever it stands"
+		bad, undecided := "", ""
+		for _, c := range cases {
+			var elems []any
+			for _, n := range c.names {
+				elems = append(elems, &iStruct{typ: slotT, fields: map[int]any{fName: &iStruct{typ: litT, fields: map[int]any{fVal: constant.MakeString(n)}}}})
+			}
+			ip := &Interp{m: m, useGlobals: true}
+			res, ok := ip.Run(fn, []any{iSlice{&iArr{elems: elems}, 0, len(elems)}})
+			tup, isT := res.(iTuple)
+			if !ok || !isT || len(tup) != 2 || ip.stuck != "" || len(ip.lost) > 0 {
+				undecided = fmt.Sprintf("on the slots %q: %s", c.names, ip.stuck)
+				break
+			}
+			nameV, okN := tup[0].(constant.Value)
+			cntV, okC := tup[1].(constant.Value)
+			if !okN || !okC {
+				undecided = fmt.Sprintf("on the slots %q: the result is not known", c.names)
+				break
+			}
+			cnt, _ := constant.Int64Val(constant.ToInt(cntV))
+			if c.times == 0 {
+				if cnt > 1 {
+					bad = fmt.Sprintf("for the slots %q a duplicate is reported (%d times) although no name is repeated", c.names, cnt)
+				}
+				continue
+			}
+			if cnt != c.times || constant.StringVal(nameV) != c.dup {
+				bad = fmt.Sprintf("for the slots %q the answer is (%q, %d), expected (%q, %d): a slot passed twice with another one in between is not reported when the templates are loaded — the later body silently replaces the earlier one", c.names, constant.StringVal(nameV), cnt, c.dup, c.times)
+			}
+			if bad != "" {
+				break
+			}
+		}
+		switch {
+		case undecided != "":
+			s.Undecided(rule, key, m.Pos(fn.Pos()), "%s could not be evaluated (%s)", fnKey(fn), undecided)
+		case bad != "":
+			s.Violation(rule, key, m.Pos(fn.Pos()), "%s: %s", fnKey(fn), bad)
+		default:
+			s.OK(rule, key, m.Pos(fn.Pos()), "case evaluation on nine lists of slots: a repeated name — adjacent or not, named or default, twice or three times — is found with its count; lists without one yield none")
 		}
 	}
 }
